@@ -326,7 +326,7 @@ func (c *Ctx) writeEvidence(evDir string, nViol, nKnown, nAud, nDis, nInfo int) 
 	seed, _ := strconv.Atoi(os.Getenv("VERIF_SEED"))
 	total := nDis + nAud + nKnown + nViol
 	cov := map[string]any{
-		"explanation":         propExplain[c.Prop],
+		"explanation":         explainOf(c.Prop),
 		"obligations":         total,
 		"discharged":          nDis,
 		"audited":             nAud,
@@ -388,3 +388,13 @@ type sensResult struct {
 }
 
 var propExplain = map[string]string{}
+
+func explainOf(prop string) string {
+	if s := propExplain[prop]; s != "" {
+		return s
+	}
+	if m, ok := metas[prop]; ok && m.Text != "" {
+		return m.Text
+	}
+	return "structural clauses of " + prop + " (see DESIGN.md section 3)"
+}
